@@ -9,12 +9,15 @@ import (
 	"math/rand"
 	"os"
 	"path/filepath"
+	"runtime"
 	"runtime/debug"
 	"sort"
 	"strconv"
 	"strings"
 	"sync"
+	"sync/atomic"
 	"testing"
+	"time"
 )
 
 // Violation is one refutation of a property by an oracle
@@ -56,16 +59,30 @@ type Ctx struct {
 	Res    *Result
 	T      *testing.T
 	Replay *Violation // non-nil: re-run only this scenario
+	// ResumeFrom: scenario indices below this were handled by an earlier
+	// incarnation of this child (which was stopped by the hang watchdog)
+	ResumeFrom int
 }
+
+var (
+	progressIdx atomic.Int64
+	progressAt  atomic.Int64
+)
 
 func (c *Ctx) Thorough() bool { return c.Tier == "thorough" }
 
-// Mine reports whether scenario index i belongs to this batch
+// Mine reports whether scenario index i belongs to this batch (and, after a
+// watchdog restart, has not been attempted yet).  It also feeds the watchdog.
 func (c *Ctx) Mine(i int) bool {
 	if c.Replay != nil {
 		return i == c.Replay.Index
 	}
-	return i%c.NBatch == c.Batch
+	if i%c.NBatch != c.Batch || i < c.ResumeFrom {
+		return false
+	}
+	progressIdx.Store(int64(i))
+	progressAt.Store(time.Now().UnixNano())
+	return true
 }
 
 // Rng returns the PRNG for scenario index i (independent of batching)
@@ -77,10 +94,14 @@ func (c *Ctx) Rng(i int) *rand.Rand {
 
 // N picks the scenario count by tier
 func (c *Ctx) N(quick, thorough int) int {
+	n := quick
 	if c.Thorough() {
-		return thorough
+		n = thorough
 	}
-	return quick
+	if m, err := strconv.Atoi(os.Getenv("VERIF_MAXN")); err == nil && m > 0 && m < n {
+		n = m
+	}
+	return n
 }
 
 func (r *Result) Eval() {
@@ -243,6 +264,38 @@ func RunEngine(t *testing.T) {
 		}
 	}
 	defer flush()
+	if rf, err := strconv.Atoi(os.Getenv("VERIF_RESUME")); err == nil {
+		c.ResumeFrom = rf
+	}
+	// Hang watchdog (real time, outside any bubble).  A scenario that makes no
+	// progress for hangSecs is a harness limitation (typically: a goroutine parked
+	// or sleeping while holding a sync.Mutex stops the virtual clock), never a
+	// verdict: it is recorded as inconclusive, the results so far are flushed and
+	// the process exits with code 75 so that the driver restarts it after that
+	// scenario.
+	hangSecs := 45
+	if hs, err := strconv.Atoi(os.Getenv("VERIF_HANG_SECS")); err == nil && hs > 0 {
+		hangSecs = hs
+	}
+	progressAt.Store(time.Now().UnixNano())
+	progressIdx.Store(-1)
+	go func() {
+		for {
+			time.Sleep(time.Second)
+			if time.Since(time.Unix(0, progressAt.Load())) > time.Duration(hangSecs)*time.Second {
+				buf := make([]byte, 1<<20)
+				n := runtime.Stack(buf, true)
+				idx := progressIdx.Load()
+				_ = os.WriteFile(filepath.Join(work, fmt.Sprintf("hang-%d.txt", idx)), buf[:n], 0o644)
+				res.Inconc(fmt.Sprintf("scenario %d made no progress for %ds (wall clock) - abandoned", idx, hangSecs))
+				res.Counters["hung_scenarios"]++
+				res.Completed = false
+				flush()
+				fmt.Fprintf(os.Stderr, "VERIF-HANG index=%d\n", idx)
+				os.Exit(75)
+			}
+		}
+	}()
 	r(c)
 	res.Completed = true
 	flush()
